@@ -352,7 +352,7 @@ fn check_spec<K: Kit>(ctx: &Ctx, kit: &K, seed: u64, n_samples: usize) {
         }
         if let Some(why) = canonical_violation(&spec, &f1, 1e-9) {
             rep("enforced-state-not-canonical", why, &p, &f1);
-        } else if let Some((ci, ex)) = ref_bounds_violation(&spec, &f1, 1e-9, 2.5e-7) {
+        } else if let Some((ci, ex)) = crate::refm::ref_bounds_violation_opt(&spec, &f1, 1e-9, 2.5e-7, true) {
             rep("enforced-state-out-of-bounds", format!("component {ci} outside by {ex}"), &p, &f1);
         }
         if let Some((ci, d)) = moved(&spec, &f1, &f2) {
